@@ -114,6 +114,7 @@ type Exec struct {
 	inlineDepth int
 	initGlobals bool
 	modelWrite int
+	anchorsHit map[string]bool // call anchors (before@/after@) that matched at least one call site
 	litEscapes bool // some function literal of this function may be retained and invoked later
 }
 
